@@ -167,9 +167,22 @@ def call_model(c, t, at, edge):
     # ---------------------------------------------------------------- lengths and containers
     if short == "len" and len(args) == 1:
         a = deref_av(av(args[0]))
-        if a[0] == "v":
-            return a[1] if a[1][0] == "i" else I(0, MAXLEN)
-        return I(0, MAXLEN)
+        # no object is larger than isize::MAX bytes: a Vec<T> / [T] has at most isize::MAX / size_of::<T>() elements
+        cap = MAXLEN
+        rty = (c.ft.tyof(args[0]) or "").strip()
+        while rty.startswith("&"):
+            rty = rty[1:].strip()
+            if rty.startswith("mut "):
+                rty = rty[4:]
+        if rty.startswith("[") and rty.endswith("]") and ";" not in rty:
+            cap = maxlen_of(rty[1:-1], facts)
+        elif rty.startswith(("std::vec::Vec<", "alloc::vec::Vec<")):
+            ga = split_generics(rty)[1]
+            if ga:
+                cap = maxlen_of(ga[0], facts)
+        if a[0] == "v" and a[1][0] == "i":
+            return meet(a[1], I(0, cap))
+        return I(0, cap)
     if short == "is_empty" and len(args) == 1:
         a = deref_av(av(args[0]))
         if a[0] == "v" and a[1][0] == "i":
@@ -202,6 +215,15 @@ def call_model(c, t, at, edge):
         a = deref_av(av(args[0]))
         if a[0] == "v":
             i = av(args[1])
+            if i[0] == "s" and sget(i, "start") is not None and sget(i, "end") is not None:
+                # v[a..b]: a slice of b - a elements of the same kind
+                lo, hi = sget(i, "start"), sget(i, "end")
+                if lo[0] == "i" and hi[0] == "i":
+                    ln = I(max(0, hi[1] - lo[2]), max(0, hi[2] - lo[1]))
+                    if a[1][0] == "i":
+                        ln = meet(ln, I(0, a[1][2]))
+                    return R(V(ln if ln[0] == "i" else I(0, MAXLEN), a[2], None))
+                return R(V(I(0, a[1][2]) if a[1][0] == "i" else I(0, MAXLEN), a[2], None))
             if a[3] is not None and i[0] == "i" and i[1] == i[2] and 0 <= i[1] < len(a[3]):
                 return R(a[3][i[1]])
             return R(a[2])
